@@ -207,9 +207,10 @@ PROPS["C05"] = dict(
 
 PROPS["C17"] = dict(
     units=["fonts"],
+    kani_quick=["std_spec_le_bytes"],
     trusted_base=COMMON_TRUST + [
         "S7: char obeys the hash-table key model (vstd assumes the same for the integer key types); std HashMap through vstd's specification",
-        "S8: u32/u16 from_le_bytes / to_le_bytes are little-endian (O1 stubs vx_u32_le, vx_u16_le, vx_push_u32_le)",
+        "S8: u32/u16 from_le_bytes / to_le_bytes are little-endian (O1 stubs vx_u32_le, vx_u16_le, vx_push_u32_le) - proved for every u32 / u16 by the Kani harness std_spec_le_bytes",
         "O1: `char::from_u32(i).and_then(|c| self.get_glyph(c))` is replaced by vx_glyph_at with the composed contract of char::from_u32 (S2) and HashMap::get",
         "BitFont::calculate_checksum is an assumed-frame function (changes only `checksum`)",
     ],
